@@ -161,7 +161,7 @@ def tpOp (op : String) (m : Mode) (rest : List String) : String :=
       | some [n] => showOTP (addMonths m p n)
       | _ => "bad-op"
     | "addtrunc" => match parseTrunc rest with
-      | some t => showOTP (addTruncTP m p t)
+      | some t => showOTP (addTruncTP24 m p t)
       | none => "bad-op"
     | "tick" => showOTP (tickOver m p)
     | "tz" => match ints? rest with
